@@ -380,6 +380,71 @@ def supportsAll : List Ty → Bool
   | t :: ts => supportsDatatype t && supportsAll ts
 end
 
+/-! ### specification of the order of nested values (stated here because `Ty` / `Val` live in this file) -/
+
+
+mutual
+/-- types whose order theorem is stated: no Map, no Union -/
+def unionFree : Ty → Bool
+  | .leaf _ => true
+  | .null => true
+  | .struct fs => unionFreeAll fs
+  | .list t => unionFree t
+  | .fsl _ t => unionFree t
+  | .dict t => unionFree t
+  | .ree t => unionFree t
+  | .map _ _ => false
+  | .union _ _ => false
+def unionFreeAll : List Ty → Bool
+  | [] => true
+  | t :: ts => unionFree t && unionFreeAll ts
+end
+
+def nullOrd (o : SortOptions) (aNull bNull : Bool) : Ordering :=
+  if aNull then (if bNull then .eq else if o.nullsFirst then .lt else .gt)
+  else (if bNull then (if o.nullsFirst then .gt else .lt) else .eq)
+
+mutual
+/-- logical order of two values of a nested type under `o` -/
+def cmpN : Ty → SortOptions → Val → Val → Ordering
+  | .leaf t, o, a, b =>
+    match a.toFVal, b.toFVal with
+    | some x, some y => compareField o t x y
+    | _, _ => .eq
+  | .null, _, _, _ => .eq
+  | .struct fs, o, .tuple xs, .tuple ys => cmpFieldsN fs o xs ys
+  | .struct _, o, .tuple _, _ => nullOrd o false true
+  | .struct _, o, _, .tuple _ => nullOrd o true false
+  | .struct _, _, _, _ => .eq
+  | .list t, o, .list xs, .list ys => swapIf o.descending (lexCompare (cmpN t (childOpts o)) xs ys)
+  | .list _, o, .list _, _ => nullOrd o false true
+  | .list _, o, _, .list _ => nullOrd o true false
+  | .list _, _, _, _ => .eq
+  | .fsl _ t, o, .list xs, .list ys => lexCompare (cmpN t o) xs ys
+  | .fsl _ _, o, .list _, _ => nullOrd o false true
+  | .fsl _ _, o, _, .list _ => nullOrd o true false
+  | .fsl _ _, _, _, _ => .eq
+  | .dict t, o, a, b => cmpN t o a b
+  | .ree t, o, a, b => swapIf o.descending (cmpN t (childOpts o) a b)
+  | .map _ _, _, _, _ => .eq
+  | .union _ _, _, _, _ => .eq
+def cmpFieldsN : List Ty → SortOptions → List Val → List Val → Ordering
+  | t :: ts, o, x :: xs, y :: ys => (cmpN t o x y).then (cmpFieldsN ts o xs ys)
+  | _, _, _, _ => .eq
+end
+
+
+/-- lexicographic order of two rows of arbitrary (union-free) fields -/
+def cmpRowN : List (Ty × SortOptions) → List Val → List Val → Ordering
+  | (t, o) :: fs, a :: as, b :: bs => (cmpN t o a b).then (cmpRowN fs as bs)
+  | _, _, _ => .eq
+
+/-- a row conforms to a schema -/
+def conformsRow : List (Ty × SortOptions) → List Val → Bool
+  | [], [] => true
+  | (t, _) :: fs, v :: vs => conforms t v && conformsRow fs vs
+  | _, _ => false
+
 /-- a row of arbitrary fields -/
 def encodeRowN : List (Ty × SortOptions) → List Val → List UInt8
   | (t, o) :: fs, v :: vs => encode o t v ++ encodeRowN fs vs
